@@ -75,7 +75,9 @@ def sub_bodies(stmt: list) -> list[list]:
         return [stmt[1]]
     if kind == 'SPAWN':
         return [stmt[2]]
-    if kind in ('CTXRUN', 'TOTHREAD'):
+    if kind == 'CTXRUN':
+        return [stmt[1]] + ([stmt[2]] if len(stmt) > 2 and stmt[2] is not None else [])
+    if kind == 'TOTHREAD':
         return [stmt[1]]
     if kind == 'TIMEOUT':
         return [stmt[2]]
@@ -140,6 +142,8 @@ def validate(spec: dict) -> None:
                     walk(sub, True if kind == 'TOTHREAD' else sync)
             elif kind == 'CTXRUN':
                 walk(stmt[1], True)
+                if len(stmt) > 2 and stmt[2] is not None:
+                    walk(stmt[2], True)
             elif kind == 'JOIN':
                 if sync and spec['world'] == 'task':
                     raise ValueError('JOIN inside a synchronous body in the task world')
@@ -501,14 +505,18 @@ class _Gen:
             return ['SPAWN', cid, child, rng.random() < 0.25], inner + 1
         if kind == 'CTXRUN':
             inner = rng.randint(1, max(1, budget - 1))
-            return ['CTXRUN', self.body(depth, inner, True, in_try)], inner + 1
+            first = self.body(depth, inner, True, in_try)
+            if rng.random() < 0.3:
+                # the same Context object runs a second job afterwards
+                return ['CTXRUN', first, self.body(depth, max(1, inner // 2), True, in_try)], inner + 1 + max(1, inner // 2)
+            return ['CTXRUN', first], inner + 1
         if kind == 'SLEEP':
             return ['SLEEP', rng.choice(SLEEPS)], 1
         if kind == 'CALLSOON':
             return ['CALLSOON'], 1
         if kind == 'TOTHREAD':
             inner = rng.randint(1, max(1, min(6, budget - 1)))
-            return ['TOTHREAD', self.body(depth, inner, True, in_try)], inner + 1
+            return ['TOTHREAD', self.body(depth, inner, True, in_try), rng.random() < 0.3], inner + 1
         if kind == 'TIMEOUT':
             inner = rng.randint(1, max(1, budget - 1))
             d = rng.choice([0.0005, 0.005, 0.2, 5, 100]) if 'timeout' in self.faults else 1e6
